@@ -14,13 +14,28 @@ Theorem c19_mask_exact :
 Proof. intros X d H. split; [exact (pareto_efficient_length X d H) | exact (pareto_mask_exact X d H)]. Qed.
 Print Assumptions c19_mask_exact.
 
-(* [Dom] is the textbook relation: component-wise <= and somewhere < *)
+(* [Dom] is the textbook relation: component-wise <= and somewhere <, over the objective values
+   a binary64 can hold other than NaN: rationals and the two infinities ([xq], [xle], [xlt]) *)
 Theorem c19_dom_is_textbook :
   forall a x : vec, length a = length x ->
-    (Dom a x <-> (forall k, (k < length a)%nat -> nth k a 0 <= nth k x 0)
-                 /\ exists k, (k < length a)%nat /\ nth k a 0 < nth k x 0).
+    (Dom a x <-> (forall k, (k < length a)%nat -> xle (nth k a xzero) (nth k x xzero))
+                 /\ exists k, (k < length a)%nat /\ xlt (nth k a xzero) (nth k x xzero)).
 Proof. exact dom_spec. Qed.
 Print Assumptions c19_dom_is_textbook.
+
+(* ... where the order is the IEEE one: the rational order on finite values, -inf below and +inf
+   above everything, inf <= inf but not inf < inf; it is a total preorder *)
+Theorem c19_order_is_ieee :
+  (forall p q, xle (Fin p) (Fin q) <-> p <= q) /\ (forall p q, xlt (Fin p) (Fin q) <-> p < q) /\
+  (forall a, xle a PInf) /\ (forall a, xle NInf a) /\ (forall p, xlt (Fin p) PInf) /\ (forall p, xlt NInf (Fin p)) /\
+  ~ xlt PInf PInf /\
+  (forall a b c, xleb a b = true -> xleb b c = true -> xleb a c = true) /\
+  (forall a b, xleb a b = true \/ xleb b a = true).
+Proof.
+  exact (conj xle_fin (conj xlt_fin (conj xle_pinf (conj xle_ninf (conj xlt_fin_pinf (conj xlt_ninf_fin
+         (conj xlt_pinf_pinf (conj xleb_trans xleb_total)))))))).
+Qed.
+Print Assumptions c19_order_is_ieee.
 
 (* The non-dominated sort, for EVERY order inside a layer ([eps] arbitrary
    permutation = whatever compute_epsilon_net returns): every index once, and
@@ -132,11 +147,18 @@ Theorem c19_sort_position_in_layer :
 Proof. exact nd_sort_position_in_layer. Qed.
 Print Assumptions c19_sort_position_in_layer.
 
-(* non-vacuity: a concrete set with a tie, a duplicate and a dominated point *)
+(* non-vacuity: a concrete set with a tie, a duplicate and a dominated point ... *)
 Example c19_example :
-  let X := [[1;2]; [2;1]; [2;2]; [1;2]; [3;0]]%Q in
+  let X := map fins [[1;2]; [2;1]; [2;2]; [1;2]; [3;0]]%Q in
   Forall (fun x => length x = 2%nat) X /\
   pareto_efficient X = [true; true; false; true; true] /\
   nondominated_sort_flat (fun l => l) X = [0;1;3;4;2]%nat /\
   priority_of_sorted [0;1;3;4;2]%nat 5 = [0; 1; 4; 2; 3]%Q.
 Proof. vm_compute. repeat split; repeat constructor. Qed.
+
+(* ... and one with a shared infinite cost: the point (inf, 2) is dominated by (inf, 1) *)
+Example c19_example_inf :
+  let X := [[PInf; Fin 1]; [PInf; Fin 2]; [Fin 1; PInf]; [Fin 0; Fin 5]]%Q in
+  pareto_efficient X = [true; false; false; true] /\
+  nondominated_sort_flat (fun l => l) X = [0;3;1;2]%nat.
+Proof. vm_compute. split; reflexivity. Qed.
